@@ -272,7 +272,9 @@ class Interp:
             self.acc = []
             self.events = []
             self.heap = dict(self.heap0) if self.heap0 is not None else None
-            self.zeroed = []          # (base, lo, hi) regions cleared by memset(p, 0, n): loads that miss the heap read 0
+            # (base, lo, hi) regions cleared by memset(p, 0, n): loads that miss the heap read 0. A heap handed on from an
+            # earlier run (chained calls on one object) carries its regions along under a reserved key.
+            self.zeroed = list(self.heap.get(("\0zeroed", 0), ())) if self.heap is not None else []
             self._objs = 0
             if getattr(self, "on_path_start", None) is not None:
                 self.on_path_start()        # hooks with per-path state (allocation counters, file position) reset it
@@ -285,6 +287,8 @@ class Interp:
             except _Return as r:
                 ret = r.v
             if getattr(self, "with_heap", False):
+                if self.heap is not None and getattr(self, "zeroed", None):
+                    self.heap[("\0zeroed", 0)] = tuple(self.zeroed)
                 outcomes.append((self.acc, ret, self.events, self.heap))
             else:
                 outcomes.append((self.acc, ret, self.events) if getattr(self, "with_events", False) else (self.acc, ret))
